@@ -77,8 +77,13 @@ func vElementRefs(g interface{}) int {
 	return n
 }
 
-func vh_C09_skip() {
-	w := vWorldSkip()
+func vh_C09_skip()              { vC09Run(vWorldSkip()) }
+func vh_C09_imports_params()    { vC09Run(vWorldImports(0)) }
+func vh_C09_imports_responses() { vC09Run(vWorldImports(1)) }
+func vh_C09_imports_item()      { vC09Run(vWorldImports(2)) }
+func vh_C09_ops()               { vC09Run(vWorldOps(false)) }
+
+func vC09Run(w *vWorld) {
 	root, ok := w.decodeRoot()
 	if !ok {
 		return
